@@ -149,7 +149,7 @@ func freshRetTargets(c *Ctx, p *core.Prog) []*ssa.Function {
 	}
 	for _, fn := range p.ModuleFuncs() {
 		pp := core.Short(core.PkgPathOf(fn))
-		if !(strings.HasPrefix(pp, "sign") || strings.HasPrefix(pp, "share") || strings.HasPrefix(pp, "encrypt") || strings.HasPrefix(pp, "proof") || pp == "util/encoding") {
+		if !(strings.HasPrefix(pp, "sign") || strings.HasPrefix(pp, "share") || strings.HasPrefix(pp, "encrypt") || strings.HasPrefix(pp, "proof") || pp == "util/encoding" || pp == "shuffle") {
 			continue
 		}
 		if fn.Object() == nil || !fn.Object().Exported() || fn.Synthetic != "" || fn.Parent() != nil || !hasReturn(fn) {
